@@ -135,9 +135,10 @@ def _connect_randomly(
         connected.add(dest)
         connects[dest] = connects.get(dest, 0) + 1
         if connects[dest] >= max_connects:
+            # (If this was the last entity of dest_set, there are no
+            # entities left in src_set, due to the check above.)
             dest_set.remove(dest)
             max_i -= 1
-            assert max_i >= 0
 
     return connected
 
